@@ -327,6 +327,31 @@ int main(int argc, char** argv) {
         out().count("evaluations", g_eval);
         out().count("nontrivial", g_accept);
         out().count("unspecified_abstained", g_unspec);
+    } else if (mode == "cgaps") {
+        // every token sequence of <= L tokens over a structural alphabet, with one comment of each form inserted at every gap, under
+        // "comments on" with and without "trailing comma": a comment relaxes nothing but itself (in particular it does not hide a trailing comma)
+        static const std::vector<std::string> toks = {"{", "}", "[", "]", ",", ":", "\"a\"", "1"};
+        static const std::vector<std::string> comments = {"/*c*/", "//c\n", "/**/"};
+        int L = (int)a.geti("L", 6);
+        std::vector<int> optsets; for (auto& s : split(a.get("opts", "1,3"), ',')) optsets.push_back(atoi(s.c_str()));
+        unsigned entries = (unsigned)a.geti("entries", 1);
+        long long idx = 0;
+        for (int len = 1; len <= L; ++len) {
+            std::vector<int> d(len, 0);
+            for (;;) {
+                if ((int)(idx++ % a.nslices) == a.slice) {
+                    for (int gap = 0; gap <= len; ++gap) for (auto& c : comments) {
+                        std::string t; for (int k = 0; k < len; ++k) { if (k == gap) t += c; t += toks[d[k]]; } if (gap == len) t += c;
+                        for (int b : optsets) check_text(t, b, entries);
+                    }
+                }
+                int k = len - 1; while (k >= 0 && ++d[k] == (int)toks.size()) { d[k] = 0; --k; }
+                if (k < 0) break;
+            }
+        }
+        out().count("evaluations", g_eval);
+        out().count("nontrivial", g_accept);
+        out().count("unspecified_abstained", g_unspec);
     } else if (mode == "wide") {
         // objects of n members with duplicate names at positions i < j (< k): the first occurrence wins whatever the size of the
         // object and the arrangement of the names (the sorted-object builder sorts, then drops duplicates)
